@@ -107,6 +107,9 @@ def assemble_rule(ctx):
 
 
 def run(ctx):
+    from . import e2e_rules as _e2e
+
+    ctx.attempt(_e2e.weakforms_rule, ctx, 'R13.E1')
     from ..shared import flag_pair_rule as _flag_pair_rule
 
     ctx.attempt(_flag_pair_rule, ctx, "R13.10", scope=lambda f, _s=("EasyFEA.FEM._field", "EasyFEA.FEM._forms", "EasyFEA.Simulations._weakforms"): f.module.name.startswith(_s), min_instances=1)
